@@ -189,6 +189,31 @@ def run(ctx):
             recs.append({"kind": "connect", "stack": stack, "pack": pname, "cfg": c, "log": l, "module": plat,
                          "gpack": got[0], "gcfg": got[1], "glog": got[2]})
             meta.append(f"{plat}.@connect")
+    # ... and a spa that reports versions for which no table is shipped (newer firmware, a gap in the series, only one
+    # of the two files unknown): no other table is loaded in their place
+    by_plat = {}
+    for plat, c, l in packs.combos():
+        e = by_plat.setdefault(plat, {"c": set(), "l": set()})
+        e["c"].add(c)
+        e["l"].add(l)
+    unknown = []
+    for plat in sorted(by_plat):
+        cs, ls = by_plat[plat]["c"], by_plat[plat]["l"]
+        unknown.append((plat, max(cs) + 1, max(ls) + 1))
+        unknown.append((plat, max(cs), max(ls) + 1))
+        gaps = [v for v in range(min(cs), max(cs)) if v not in cs]
+        if gaps:
+            unknown.append((plat, gaps[-1], max(ls)))
+    if ctx.quick:
+        unknown = unknown[::2] + unknown[1::6]
+    for plat, c, l in unknown:
+        pname = cur[f"{plat}.@table"]["name"]
+        for stack in ("async", "sync"):
+            got = loaded_modules(pname, c, l, stack)
+            recs.append({"kind": "connect-unknown", "stack": stack, "pack": pname, "cfg": c, "log": l, "module": plat,
+                         "cfgshipped": c in by_plat[plat]["c"], "logshipped": l in by_plat[plat]["l"],
+                         "gpack": got[0], "gcfg": got[1], "glog": got[2]})
+            meta.append(f"{plat}.@connect-unknown")
     # the refresh window of every log table as the real clients request it: the periodic refresh of both clients
     # must cover [begin, end] (end inclusive: items sit on it in three shipped tables)
     for m in [m for m in mods if m["kind"] == "log"]:
